@@ -110,6 +110,11 @@ func Pack64(bits *[64]bool) uint64 {
 	return r
 }
 
+// Native reports whether the harness runs natively (replay, validation) rather than under the symbolic executor,
+// which answers false. Used only to make a native replay MORE tolerant than the solver obligation where the property
+// is existential (C18: "for some choice among equally valued least attackers"), never less.
+func Native() bool { return true }
+
 // Done is called at the end of a replayed harness.
 func Done() { fmt.Println("VP-REPLAY-COMPLETED") }
 
